@@ -3,7 +3,7 @@ FIX_COMMITS = ["14a7bc4", "34fd9b1", "f8f4ffb", "61fde54", "7a81c99", "eafa42d",
 ENGINES = [
     {"name": "A-index", "path": "engine/index.py, engine/tables.py", "serves_properties": ["C01", "C14"], "kind_free_text": "package index: imports, classes, C3 MRO, constants, declaration tables, call graph"},
     {"name": "C-arrays", "path": "engine/arrays.py", "serves_properties": ["C02", "C03", "C04", "C05", "C06", "C07", "C08", "C09"], "kind_free_text": "abstract interpreter over the 36 execute bodies and helpers: kind, alias, mask coverage, value dependence, hidden-payload flow, shape, dtype, clamp range, layer selection; closed numpy vocabulary"},
-    {"name": "E-regexlang", "path": "engine/regexlang.py, engine/grammar.py", "serves_properties": ["C10", "C11", "C15"], "kind_free_text": "token regex -> NFA -> DFA over an exact alphabet partition (inclusion, intersection, containment with shortest witnesses); PLY rules and productions extracted as data"},
+    {"name": "E-regexlang", "path": "engine/regexlang.py, engine/grammar.py", "serves_properties": ["C10", "C11", "C15"], "kind_free_text": "token regex -> NFA -> DFA over an exact alphabet partition (inclusion, intersection, containment with shortest witnesses); PLY rules and productions extracted as data; Earley recogniser and LALR(1) table (yacc conflict resolution) built from the extracted productions"},
     {"name": "D-effects", "path": "engine/effects.py", "serves_properties": ["C13", "C20"], "kind_free_text": "value-kind narrowing with exhaustive choice enumeration over the Parameter.clean methods: escape sets, return kinds, identity paths, effects; closed operation table"},
     {"name": "B-cfg", "path": "engine/cfg.py", "serves_properties": ["C01", "C14"], "kind_free_text": "event-level CFG with exceptional edges, dominance, must-pass-through, path enumeration, typestate, reaching definitions"},
 ]
@@ -44,7 +44,7 @@ CLAIMS["C19"] = {"engine": "B-cfg", "technique": "recognised-form classification
 CLAIMS["C12"] = {"engine": "B-cfg", "technique": "CFG dominance of the load-time and run-time gates, path-enumerated decision table of ResultParameter.clean against a specification table, call-graph effect reachability, declaration-table checks (thorough: 2 x 34 x 35 producer/consumer matrix)",
     "text": "Decides gates and ordering (C12.a, C12.b), the reference decision table (C12.c: every feasible path of ResultParameter.clean agrees with the specification rows), absence of effects before rejection (C12.d), checkable declarations (C12.e) and error payloads (C12.f). Per-value kind checks beyond the cleaners' kinds are C20's.", "note": "The specification table is DESIGN.md appendix A.4."}
 
-CLAIMS["C10"] = {"engine": "E-regexlang", "technique": "regular-language inclusion/intersection/containment on the token DFAs, production and p[i] table agreement, recognised-form checks of the string action",
+CLAIMS["C10"] = {"engine": "E-regexlang", "technique": "regular-language inclusion/intersection/containment on the token DFAs, production and p[i] table agreement, layout forms derived by the extracted grammar (Earley) and accepted by the LALR(1) table generated from it, recognised-form checks of the string action",
     "text": "Decides table agreement (C10.a), delimiter exclusion with witnesses (C10.b), number-token languages against int()/float() (C10.c), value threading and order of every action (C10.d), layout productions (C10.e), lossy text reconstruction (C10.f) and error callbacks (C10.g). Equality of the parse with the generating AST for every rendering quantifies over texts and is not decided; three lossy-reconstruction defects of the unquoted-string productions are listed as known findings.", "note": "Trusts PLY's documented rule priority and LALR table construction."}
 CLAIMS["C11"] = {"engine": "E-regexlang", "technique": "CFG must-pass-through for the counter reset, DFA containment of LF per token with recognised increment forms, first-symbol index of every p.lineno, line-carrying-argument check on 21 raise sites and every clean() call",
     "text": "Decides the whole mechanism chain, trusting PLY's bookkeeping: counter reset on every path to the parse call with lexer= and tracking=True (C11.a), terminators counted exactly once including inside tokens that can contain LF (C11.b), nodes take the line of their first symbol (C11.c), the line is threaded from nodes to arguments, commands and clean() calls (C11.d), every load/validation raise carries a line of the offending object (C11.e), the CLI marks that line of the very text it parsed (C11.f).", "note": "PLY 3.11 lineno semantics (DESIGN A.2) are trusted."}
@@ -199,6 +199,16 @@ ADDED11 = {
     "C13": "C13.e / C14.j accept a handler that returns a non-zero status which every caller hands to sys.exit.",
     "C01": "C01.f accepts an early return under a flag that provably means 'every command finished'.",
 }
+ADDED13 = {
+    "C10": "C10.e also runs the layout forms through the LALR(1) table generated from the extracted productions (yacc's conflict resolution): a form the grammar derives but the generated parser refuses is the violation.",
+    "C03": "Engine C: a generator over the inputs is one-shot (a second reader finds an unknown rest); `nomask` under `not any(m.any() for m in masks)` is the empty union of all input masks.",
+    "C04": "Engine C: clip(x, lo, hi, out=x) limits x in place and, through a data view, its masked owner; asarray with dtype= is not known to be the operand's buffer.",
+    "C15": "C15.b: the decoder may be spelled codecs.decode / codecs.escape_decode; round-trip witnesses include text outside ASCII.",
+    "C16": "C16.b: the parsed argument list may be passed through when a container of its names holds neither dropped name.",
+    "C14": "C14.k accepts a cleaner that evaluates references when every run() sets the in-progress flag before it validates.",
+}
+for _k, _v in ADDED13.items():
+    CLAIMS[_k]["text"] += " " + _v
 ADDED12 = {
     "C01": "C01.m: no execute body writes through an input (Engine C); C01.n: a cycle report needs a repeated node on the current path, not in the set of all nodes reached before.",
     "C03": "C03.g: nothing read or computed is kept between executions unless every array taken out of what is kept is copied.",
